@@ -5,6 +5,7 @@ import (
 	"fmt"
 	"sort"
 	"strings"
+	"sync"
 	"testing"
 	"time"
 
@@ -75,7 +76,7 @@ type caseInfo struct {
 func TestC23(t *testing.T) {
 	r := vlib.Start(t, "C23", vlib.LevelExploration)
 	defer r.Finish()
-	r.SetRule("case = a set of 1..40 signed SuffrageExpelOperations (1..6 nodes, ranges [start,end] inside a 20-height window, several per node, some starting above later query heights) stored in a real TempPool on a leveldb MemStorage; every height of the window +-2 is queried with TraverseSuffrageExpelOperations (callback always continues) and SuffrageExpelOperation(h,node) for every node, then RemoveSuffrageExpelOperationsByHeight / ...ByFact are applied and everything is queried again; distinct = multiset of (node,start,end) relative to the window base; non-trivial = at least 2 operations and at least one query height covered by some but not all operations")
+	r.SetRule("case = a set of 1..40 signed SuffrageExpelOperations (1..6 nodes; one case in 150 is large: 1200..1600 operations of 30..50 nodes, lookups for 6 of the nodes, one remove-by-height taking out several hundred and one remove-by-fact of about 4/5 of the rest, so that single calls cross internal batch sizes such as 333; ranges [start,end] inside a 20-height window, several per node, some starting above later query heights) stored in a real TempPool on a leveldb MemStorage; every height of the window +-2 is queried with TraverseSuffrageExpelOperations (callback always continues) and SuffrageExpelOperation(h,node) for every node, then RemoveSuffrageExpelOperationsByHeight / ...ByFact are applied and everything is queried again; distinct = multiset of (node,start,end) relative to the window base; non-trivial = at least 2 operations and at least one query height covered by some but not all operations")
 	r.Assume("only valid expel facts are stored (start > genesis, start <= end), as IsValid guarantees for operations reaching the pool")
 	r.Assume("operations are identified by fact hash; two operations with the same (node,start,end) have the same fact hash and the pool keeps the one stored last (Put)")
 
@@ -104,6 +105,13 @@ func run(r *vlib.Run, g *rig, ncases int) {
 		base0 := int64(2 + rng.Intn(1000))
 		win := int64(20)
 		nnodes := 1 + rng.Intn(6)
+		// large cases: several hundred to ~1200 operations of many nodes, so that
+		// one traverse / remove call handles more entries than any internal
+		// batch size (333 elsewhere in this file of the repository)
+		large := ci%largeEvery(r) == 1
+		if large {
+			nnodes = 30 + rng.Intn(21)
+		}
 		nodes := make([]base.Address, nnodes)
 		for i := range nodes {
 			nodes[i] = base.RandomAddress(fmt.Sprintf("n%d-", i))
@@ -111,6 +119,15 @@ func run(r *vlib.Run, g *rig, ncases int) {
 		nops := 1 + rng.Intn(40)
 		if ci%7 == 0 {
 			nops = 1 + rng.Intn(4)
+		}
+		if large {
+			nops = 1200 + rng.Intn(400)
+			r.Count("large_cases", 1)
+		}
+		// nodes asked in lookups (all of them, a sample in large cases)
+		asknodes := nnodes
+		if large {
+			asknodes = 6
 		}
 
 		model := map[string]rec{}   // by fact hash
@@ -142,7 +159,11 @@ func run(r *vlib.Run, g *rig, ncases int) {
 		for i := 0; i < nops; i++ {
 			s := base0 + rng.Int63n(win)
 			var e int64
-			switch rng.Intn(4) {
+			shape := rng.Intn(4)
+			if large {
+				shape = rng.Intn(2) + 1 // half short, half long ranges
+			}
+			switch shape {
 			case 0:
 				e = s
 			case 1:
@@ -161,6 +182,9 @@ func run(r *vlib.Run, g *rig, ncases int) {
 				}
 			}
 			sort.Strings(out)
+			if len(out) > 80 {
+				out = append(out[:80:80], fmt.Sprintf("... and %d more", len(out)-80))
+			}
 			return out
 		}
 		fpParts := []string{}
@@ -223,6 +247,7 @@ func run(r *vlib.Run, g *rig, ncases int) {
 				}
 				r.Count("traverse_calls", 1)
 				r.Count("ops_visited", len(visited))
+				maxSet(r, "max_visited_in_one_traverse", len(visited))
 				for _, x := range visited {
 					seen[x.fact] = true
 				}
@@ -256,7 +281,7 @@ func run(r *vlib.Run, g *rig, ncases int) {
 				}
 
 				// lookup per node
-				for ni := range nodes {
+				for ni := range nodes[:asknodes] {
 					var wantn []rec
 					for _, x := range want {
 						if x.Node == ni {
@@ -328,8 +353,14 @@ func run(r *vlib.Run, g *rig, ncases int) {
 
 		// remove by height
 		rounds := 1 + rng.Intn(3)
+		if large {
+			rounds = 1
+		}
 		for k := 0; k < rounds && ok; k++ {
 			rh := base0 - 2 + rng.Int63n(win+5)
+			if large {
+				rh = base0 + 12 + rng.Int63n(3) // takes out several hundred at once, leaves several hundred
+			}
 			info := caseInfo{Case: ci, Ops: desc(), Phase: "remove-by-height", Removed: fmt.Sprintf("h=%d", rh)}
 			panicked := r.Guard("RemoveSuffrageExpelOperationsByHeight", info, func() {
 				if err := pool.RemoveSuffrageExpelOperationsByHeight(base.Height(rh)); err != nil {
@@ -349,6 +380,7 @@ func run(r *vlib.Run, g *rig, ncases int) {
 				}
 			}
 			r.Count("remove_by_height_expected_removed", len(gone))
+			maxSet(r, "max_removed_by_one_remove_by_height", len(gone))
 			var after map[string]bool
 			after, ok = queryAll(fmt.Sprintf("after-remove-by-height(%d)", rh))
 			if !ok {
@@ -368,13 +400,13 @@ func run(r *vlib.Run, g *rig, ncases int) {
 		}
 
 		// remove by fact (incl. an unknown fact)
-		if ok && len(model) > 0 && rng.Intn(2) == 0 {
+		if ok && len(model) > 0 && (large || rng.Intn(2) == 0) {
 			var facts []base.SuffrageExpelFact
 			var names []string
 			gone := map[string]rec{}
 			for _, f := range order {
 				x, exists := model[f]
-				if !exists || rng.Intn(3) != 0 {
+				if !exists || (!large && rng.Intn(3) != 0) || (large && rng.Intn(5) == 0) {
 					continue
 				}
 				facts = append(facts, x.op.ExpelFact())
@@ -382,6 +414,9 @@ func run(r *vlib.Run, g *rig, ncases int) {
 				gone[f] = x
 			}
 			facts = append(facts, isaac.NewSuffrageExpelFact(base.RandomAddress("unknown-"), base.Height(base0), base.Height(base0+1), "unknown"))
+			if len(names) > 80 {
+				names = append(names[:80:80], fmt.Sprintf("... and %d more", len(names)-80))
+			}
 			info := caseInfo{Case: ci, Ops: desc(), Phase: "remove-by-fact", Removed: strings.Join(names, " ")}
 			panicked := r.Guard("RemoveSuffrageExpelOperationsByFact", info, func() {
 				if err := pool.RemoveSuffrageExpelOperationsByFact(facts); err != nil {
@@ -390,6 +425,7 @@ func run(r *vlib.Run, g *rig, ncases int) {
 			})
 			if !panicked {
 				r.Count("remove_by_fact_calls", 1)
+				maxSet(r, "max_facts_in_one_remove_by_fact", len(gone))
 				for f := range gone {
 					delete(model, f)
 				}
@@ -457,6 +493,22 @@ func run(r *vlib.Run, g *rig, ncases int) {
 				r.Violation("Lookup:notfound-but-covering-exists:behind-later-ending-operation-of-node-starting-above-height", "directed: lookup(7,n0) over {n0[10,20], n0[6,9]} found nothing", info)
 			}
 		})
+	}
+}
+
+// largeEvery: one case in so many is a large one (2 in the quick tier).
+func largeEvery(r *vlib.Run) int { return r.N(150, 175) }
+
+var maxMu sync.Mutex
+var maxVals = map[string]int{}
+
+// maxSet keeps the maximum of a measured size in the evidence.
+func maxSet(r *vlib.Run, key string, v int) {
+	maxMu.Lock()
+	defer maxMu.Unlock()
+	if v > maxVals[key] {
+		maxVals[key] = v
+		r.Set(key, v)
 	}
 }
 
